@@ -200,6 +200,11 @@ fn enum_values(rng: &mut Rng, sw: &Swarm, lo: usize, hi: usize) -> Vec<String> {
                     vals.push(b.to_string());
                 }
             }
+            2 if rng.chance(1, 3) => {
+                // a value that is format-string syntax
+                let i = rng.below(vals.len());
+                vals[i] = "{}".to_string();
+            }
             _ => {
                 let n = rng.range(1, 2);
                 for _ in 0..n {
